@@ -1,10 +1,16 @@
-from props_common import TRUSTED_COMMON, VIEW_RULE, views_harness
+from props_common import GEN_LAYOUT_TRUST, TRUSTED_COMMON, VIEW_RULE, views_harness
 
 PROP = {
-    "generators": [{"script": "gen_asserts.py"}],
-    "lean_targets": ["MultiProofs.C20"],
+    "generators": [{"script": "gen_asserts.py"}, {"script": "gen_layout.py"}],
+    "lean_targets": ["MultiProofs.C20", "MultiProofs.GenTie"],
     "lean_module": "MultiProofs.C20",
     "theorems": [
+        "Multi.GenTie.assertions_are_the_code",
+        "Multi.GenTie.take_drop_assertions_are_the_code",
+        "Multi.GenTie.unasserted_functions_are_the_code",
+        "Multi.GenTie.range_functions_are_the_code",
+        "Multi.GenTie.layout_functions_are_the_code",
+        "Multi.GenTie.view_functions_are_the_code",
         "Multi.C20.inventory_classified_and_pure",
         "Multi.C20.asserts_silent_index",
         "Multi.C20.asserts_fire_index",
@@ -25,7 +31,7 @@ PROP = {
         views_harness(["zero", "rebased"], 3200, 200000, name="views_ndebug", flags=["-O1", "-DNDEBUG"]),
         views_harness(["zero", "rebased"], 3200, 200000, name="views_disable", flags=["-O1", "-g", "-DBOOST_MULTI_ASSERT_DISABLE"]),
     ],
-    "trusted_base": TRUSTED_COMMON + ["tools/gen_asserts.py (assertion inventory: regex extraction + classification rules) and the reviewed snapshot tools/assert_inventory.json",
+    "trusted_base": TRUSTED_COMMON + GEN_LAYOUT_TRUST + ["tools/gen_asserts.py (assertion inventory: regex extraction + classification rules) and the reviewed snapshot tools/assert_inventory.json",
                                      "process-level behaviour of assert() (abort with a message naming the file) is observed in forked children, not modelled"],
     "assumptions": ["valid programs = the generated programs of C01/C02/C19 (view algebra, iterators, elements ranges); valid programs of C04-C07 run assertion-enabled in their own checks",
                     "assertion classes without a model predicate (reinterpret/scale preconditions, 0-D counts, null-base offset, elements()[k] bound) are covered by the three-configuration differential run only"],
